@@ -26,7 +26,7 @@ EXPLANATION = (
     "only when weight == 1.0; (O3) BFS/DFS discipline - mark-on-enqueue in the same block as parent store and "
     "enqueue, FIFO pop for bfs (publishes OPTIMAL), LIFO pop for dfs (publishes FEASIBLE), objective = len(path) - 1; "
     "(O4) Bellman-Ford - at least n-1 relaxation rounds, a separate full detection pass with the same relax condition, "
-    "UNBOUNDED only from the detection pass, INFEASIBLE only for an infinite target distance; (O5) Floyd-Warshall - "
+    "UNBOUNDED only from the detection pass (or for a circular parent chain), INFEASIBLE only for an infinite target distance; (O5) Floyd-Warshall - "
     "the intermediate vertex of dist[i][k] + dist[k][j] is bound by the outermost loop, duplicate edges merge by min, "
     "UNBOUNDED only under a negative diagonal; (O6) grid - `auto` resolves to a heuristic admissible for the chosen "
     "move set, the diagonal multiplier is applied iff both deltas are non-zero, moves stay in bounds and off blocked "
@@ -229,12 +229,20 @@ def check_bellman_ford(ctx: Ctx):
     for s in result_sites(f):
         at = gv.guard_atoms(s.node)
         if "UNBOUNDED" in s.statuses:
-            ctx.ob("C11-O4", "R1 STATUS-GUARD", f, "UNBOUNDED only from the detection pass", detect and s.node.loop is not None and s.node.loop.ast is detect[0], "", node=s.call)
+            from_pass = bool(detect) and s.node.loop is not None and s.node.loop.ast is detect[0]
+            # ... or from a parent chain that runs in a circle: rounding can turn a zero-weight cycle into one the
+            # relaxation keeps improving by an ulp (0.3 + 3 - 3 < 0.3); the walk back from the target is cut off after n
+            # steps and the call answers like the detection pass instead of never returning (ledger row 71)
+            from_walk = "path is None" in at and any(isinstance(d, ast.Assign) and ast.unparse(d.targets[0]) == "path" and ast.unparse(d.value) == "_reconstruct_indexed(parent, target)" for d in own_nodes(f.node))
+            ctx.ob("C11-O4", "R1 STATUS-GUARD", f, "UNBOUNDED only from the detection pass, or for a parent chain that does not end", from_pass or from_walk, f"{sorted(a for a in at if 'path' in a or 'dist' in a)}", node=s.call)
         elif "INFEASIBLE" in s.statuses:
             ctx.ob("C11-O4", "R1 STATUS-GUARD", f, "INFEASIBLE only for an infinite target distance", atom_of("dist[target] == float('inf')") in at and "target is not None" in at, f"{sorted(at)}", node=s.call)
         elif ast.unparse(s.arg("solution")) == "path":
             pd = [d.value for d in own_nodes(f.node) if isinstance(d, ast.Assign) and ast.unparse(d.targets[0]) == "path"]
             ctx.ob("C11-O7", "R5 PAIRING", f, "path reconstructed to the target whose distance is reported", len(pd) == 1 and ast.unparse(pd[0]) == "_reconstruct_indexed(parent, target)" and ast.unparse(s.arg("objective")) == "dist[target]", "", node=s.call)
+    rec = ctx.func("bellman_ford", "_reconstruct_indexed")
+    rt = ast.unparse(rec.node)
+    ctx.ob("C11-O7", "R22 STUTTER-FREE", rec, "the walk along the parent pointers ends: at the start node, or after more steps than there are nodes (answer None)", "while parent[path[-1]] != -1:\n        if len(path) > len(parent):\n            return None\n        path.append(parent[path[-1]])" in rt and "path.reverse()" in rt, "without the cut-off a circle of parent pointers - which float rounding on a zero-weight cycle produces - makes the call run until memory is exhausted", node=rec.node)
     init = [n for n in own_nodes(f.node) if isinstance(n, ast.Assign) and ast.unparse(n.targets[0]) == "dist[start]"]
     ctx.ob("C11-O4", "R21 search discipline", f, "source distance initialised to 0, all others to infinity", len(init) == 1 and ast.unparse(init[0].value) in ("0.0", "0") and any(ast.unparse(n) == "dist = [float('inf')] * n_nodes" for n in own_nodes(f.node)), "", node=f.node)
 
@@ -724,7 +732,13 @@ def _v_edge_validator_fast_path(tree):
     g.body.insert(1 if isinstance(g.body[0], ast.Expr) else 0, M.stmts("if edges and min(u for u, _, _ in edges) >= 0 and max(max(u, v) for u, v, _ in edges) < n_nodes:\n    return")[0])
 
 
+def _v_bf_unbounded_walk(tree):
+    g = M.find_func(tree, "_reconstruct_indexed")
+    M.replace_stmt(g, lambda s: isinstance(s, ast.If) and M.src_has(s.test, "len(path) > len(parent)"), [])
+
+
 VARIANTS = [
+    M.Variant("bellman_ford walks the parent pointers without a bound: a rounding-made parent cycle never returns (original defect, ledger row 71)", BF, _v_bf_unbounded_walk, "C11-O7"),
     M.Variant("check_edge_nodes returns early when the sources are non-negative and no endpoint is too large (seed C11-U)", "solvor/utils/validate.py", _v_edge_validator_fast_path, "C11-G7"),
     M.Variant("astar_grid lowers the caller's iteration budget to the number of passable cells (seed C11-S)", AS, _v_grid_budget_capped, "C11-G17"),
     M.Variant("floyd_warshall skips pivots that no listed edge leaves (seed C11-T)", FW, _v_floyd_skips_sink_pivots, "C11-O5"),
